@@ -75,7 +75,7 @@ theorem wordsAux_ne_nil (acc s : Str) (h : acc ≠ []) : wordsAux acc s ≠ [] :
     · simp [h]
     · exact ih _ (by simp)
 
-theorem joinWith_cons_ne {sep x : Str} {ws : List Str} (h : ws ≠ []) :
+theorem joinWith_cons_ne_str {sep x : Str} {ws : List Str} (h : ws ≠ []) :
     joinWith sep (x :: ws) = x ++ sep ++ joinWith sep ws := by
   cases ws with
   | nil => exact absurd rfl h
@@ -109,7 +109,7 @@ theorem wordsAux_run (s : Str) :
         simp [wordsAux, hc', run, WsSt.out, this]
       · intro x
         have hne : wordsAux [c] s ≠ [] := wordsAux_ne_nil _ _ (by simp)
-        simp [wordsAux, hc', run, WsSt.out, joinWith_cons_ne hne, e1]
+        simp [wordsAux, hc', run, WsSt.out, joinWith_cons_ne_str hne, e1]
 
 /-- `' '.join(s.split())` is the transducer started in state `start` -/
 theorem collapse_eq_run (s : Str) : collapse s = run .start s := by
@@ -130,13 +130,13 @@ theorem prependHead_prependHead (x y : Str) (L : List Str) :
     prependHead x (prependHead y L) = prependHead (x ++ y) L := by
   cases L <;> simp [prependHead]
 
-theorem sepStart_eq_some {s rest : Str} :
+theorem sepStart_eq_some_iff {s rest : Str} :
     sepStart s = some rest ↔ s.dropWhile isSpace = dots ++ rest := by
   simp [sepStart, dropPrefix?_eq_some]
 
 theorem sepStart_length {s rest : Str} (h : sepStart s = some rest) :
     (rest.dropWhile isSpace).length + 3 ≤ s.length := by
-  have h1 := congrArg List.length (sepStart_eq_some.mp h)
+  have h1 := congrArg List.length (sepStart_eq_some_iff.mp h)
   have h2 := (List.dropWhile_sublist isSpace (l := s)).length_le
   have h3 := (List.dropWhile_sublist isSpace (l := rest)).length_le
   simp [dots] at h1
@@ -267,7 +267,7 @@ theorem sepStart_run_some {s r' : Str} {σ : WsSt} (h : sepStart (run σ s) = so
     · rw [run_cons_space hc] at h
       rw [sepStart_cons_space hc]; exact ih h
     · have hc' : isSpace c = false := by simpa using hc
-      have h1 := sepStart_eq_some.mp h
+      have h1 := sepStart_eq_some_iff.mp h
       rw [dropWhile_run] at h1
       simp only [List.dropWhile_cons, hc', Bool.false_eq_true, ↓reduceIte, run, WsSt.out,
         dots, List.cons_append, List.nil_append, List.cons.injEq] at h1
@@ -434,7 +434,7 @@ theorem contains_of_split_length (s : Str) (h : 2 ≤ (splitEllipsis s).length) 
   | cons c s ih =>
     cases hs : sepStart (c :: s) with
     | some rest =>
-      have h1 := sepStart_eq_some.mp hs
+      have h1 := sepStart_eq_some_iff.mp hs
       have h2 := List.takeWhile_append_dropWhile (p := isSpace) (l := c :: s)
       rw [h1] at h2
       exact contains_iff.mpr ⟨(c :: s).takeWhile isSpace, rest, h2.symm.trans (by simp)⟩
